@@ -3,7 +3,8 @@
 // makeFeasible is piecewise-linear (incremental VPSC, sorted alternatives), so it is executed symbolically end to end.
 //   -DNR=n   -DOVERLAP  avoid node overlaps   -DSEP  add SeparationConstraint(x, 0, 1, gap symbolic)
 //   -DALIGN  add y-AlignmentConstraint on nodes 0,1    -DCLUSTER  nodes 0,1 in a RectangularCluster, the others outside
-//   -DEXEMPT nodes 0 and 1 are declared exempt from non-overlap
+//   -DEXEMPT nodes 0 and NR-1 are declared exempt from non-overlap (a group with non-adjacent indices when NR=3)
+//   -DSEPEQ the x separation is an equality   -DSEPY adds an equality y-separation between nodes 0 and 1
 #include "verif.h"
 #include "libvpsc/rectangle.h"
 #include "libcola/cola.h"
@@ -29,7 +30,15 @@ extern "C" void harness(void) {
     CompoundConstraints ccs;
 #ifdef SEP
     double gap = verif_coord(0, 30);
+#ifdef SEPEQ
+    ccs.push_back(new SeparationConstraint(vpsc::XDIM, 0, 1, gap, true));
+#else
     ccs.push_back(new SeparationConstraint(vpsc::XDIM, 0, 1, gap, false));
+#endif
+#endif
+#ifdef SEPY
+    double gapy = verif_coord(0, 12);
+    ccs.push_back(new SeparationConstraint(vpsc::YDIM, 0, 1, gapy, true));
 #endif
 #ifdef ALIGN
     { AlignmentConstraint *al = new AlignmentConstraint(vpsc::YDIM); al->addShape(0, 0); al->addShape(1, 0); ccs.push_back(al); }
@@ -37,7 +46,7 @@ extern "C" void harness(void) {
     alg->setConstraints(ccs);
 #ifdef OVERLAP
 #ifdef EXEMPT
-    { std::vector<std::vector<unsigned> > groups(1); groups[0].push_back(0); groups[0].push_back(1); alg->setAvoidNodeOverlaps(true, groups); }
+    { std::vector<std::vector<unsigned> > groups(1); groups[0].push_back(0); groups[0].push_back(NR - 1); alg->setAvoidNodeOverlaps(true, groups); }
 #else
     alg->setAvoidNodeOverlaps(true);
 #endif
@@ -62,7 +71,18 @@ extern "C" void harness(void) {
         CHECK((dw <= 1e-9) & (dw >= -1e-9) & (dh <= 1e-9) & (dh >= -1e-9), "C07 makeFeasible never changes a rectangle's size");
     }
 #ifdef SEP
+#ifdef SEPEQ
+    if (!reported) { double d = X[0] + gap - X[1]; CHECK((d <= 1e-4) & (d >= -1e-4), "C07 equality separation holds after makeFeasible unless reported unsatisfiable"); }
+#else
     if (!reported) CHECK(X[0] + gap <= X[1] + 1e-4, "C07 separation holds after makeFeasible unless reported unsatisfiable");
+#endif
+#endif
+#ifdef SEPY
+    // user constraints outrank non-overlap: they must hold even when the pair cannot be separated (that is then reported
+    // for the non-overlap constraint only)
+    { double d = Y[0] + gapy - Y[1]; bool userReported = false;
+      for (size_t i = 0; i < uy.size(); i++) userReported = userReported || uy[i]->cc == ccs.back();
+      if (!userReported) CHECK((d <= 1e-4) & (d >= -1e-4), "C07 y equality separation holds after makeFeasible unless it is itself reported unsatisfiable"); }
 #endif
 #ifdef ALIGN
     if (!reported) { double d = Y[0] - Y[1]; CHECK((d <= 1e-4) & (d >= -1e-4), "C07 alignment holds after makeFeasible unless reported unsatisfiable"); }
@@ -70,7 +90,12 @@ extern "C" void harness(void) {
 #ifdef OVERLAP
     if (!reported) for (int i = 0; i < NR; i++) for (int j = i + 1; j < NR; j++) {
 #ifdef EXEMPT
-        if (i == 0 && j == 1) continue;
+        if (i == 0 && j == NR - 1) continue;
+#endif
+#if defined(SEPEQ) && defined(SEPY)
+        // the property speaks about user constraints that admit a non-overlapping layout: nodes 0 and 1 are pinned relative
+        // to each other, so they can only be apart if one of the pinned gaps already separates them
+        if (i == 0 && j == 1 && !((gap >= (W[0] + W[1]) / 2) | (gapy >= (H[0] + H[1]) / 2))) continue;
 #endif
         double ox = (W[i] + W[j]) / 2 - (X[i] > X[j] ? X[i] - X[j] : X[j] - X[i]);
         double oy = (H[i] + H[j]) / 2 - (Y[i] > Y[j] ? Y[i] - Y[j] : Y[j] - Y[i]);
